@@ -330,6 +330,13 @@ pub fn run(prop: &str, tier: &str, seed: u64, out: &str) {
                 if c.in_d { rep.oracle_fail("extractPanic", panic_triggers(&c.doc, e), &case_text(c), e); }
             }
         }
+        // C08 is about the types the emitted crate uses: the table after tree shaking (whose alias short-circuit
+        // rewrites field types) is compared as well
+        if raw {
+            reqs.push(format!("(extract {dump})"));
+            idx_of.push(i);
+            match real_extract(&spec) { Ok(hh) => imps.push(specio::hir_spec(&hh)), Err(_) => imps.push("(panic)".into()) }
+        }
         parsed.push(Some(spec));
         hirs.push(h.ok());
     }
